@@ -223,6 +223,15 @@ static void vr_abnormal_key(int status, int timed_out, const char *err, char *ke
         for (char *c = detail; *c; c++) if (*c == '\n') { *c = 0; break; }
         return;
     }
+    if ((p = strstr(err, "== Invalid ")) != NULL || (p = strstr(err, "uninitialised value")) != NULL || (p = strstr(err, "== Conditional jump")) != NULL) {
+        /* valgrind memcheck */
+        char what[60] = ""; sscanf(p[0] == '=' ? p + 3 : p, "%59[A-Za-z ]", what);
+        for (char *c = what; *c; c++) if (*c == ' ') *c = '_';
+        char fn[100] = ""; const char *f = strstr(p, "by 0x"); const char *a = strstr(p, "at 0x"); const char *g = a ? a : f;
+        if (g) { const char *col = strstr(g, ": "); if (col) sscanf(col + 2, "%99[A-Za-z0-9_]", fn); }
+        snprintf(key, ksz, "memcheck:%s:%s", what, fn);
+        return;
+    }
     if ((p = strstr(err, "WARNING: ThreadSanitizer:")) != NULL) {
         char kind[80] = ""; sscanf(p, "WARNING: ThreadSanitizer: %79[^(\n]", kind);
         for (char *c = kind; *c; c++) if (*c == ' ') *c = '_';
@@ -343,7 +352,8 @@ retry:;
             }
         }
         int abnormal = timed_out || !WIFEXITED(status) || WEXITSTATUS(status) != 0 || !finished
-                       || strstr(ebuf, "ERROR: AddressSanitizer") || strstr(ebuf, "runtime error:") || strstr(ebuf, "WARNING: ThreadSanitizer");
+                       || strstr(ebuf, "ERROR: AddressSanitizer") || strstr(ebuf, "runtime error:") || strstr(ebuf, "WARNING: ThreadSanitizer")
+                       || strstr(ebuf, "== Invalid ") || strstr(ebuf, "uninitialised value") || strstr(ebuf, "== Conditional jump");
         if (abnormal) {
             char key[300], detail[400];
             vr_abnormal_key(status, timed_out, ebuf, key, sizeof key, detail, sizeof detail);
